@@ -142,7 +142,7 @@ func (eng *RedisEmu) killSignalMonitor() {
 	signal.Notify(sigs, syscall.SIGINT, syscall.SIGTERM, os.Interrupt)
 
 	eng.wg.Add(1)
-	go func() {
+	simGo(func() {
 		defer eng.wg.Done()
 		simTaskBegin("sigmon", 0)
 		defer simTaskEnd()
@@ -161,7 +161,7 @@ func (eng *RedisEmu) killSignalMonitor() {
 			eng.l.Debug("kill monitor canceled")
 			return
 		}
-	}()
+	})
 }
 
 func (eng *RedisEmu) exitKeyMonitor() {
@@ -169,7 +169,7 @@ func (eng *RedisEmu) exitKeyMonitor() {
 	// triggered another way, this goroutine will leak. Go does
 	// not give a reasonable way to cancel a blocking I/O call.
 	eng.wg.Add(1)
-	go func() {
+	simGo(func() {
 		defer eng.wg.Done()
 		simTaskBegin("keymon", 0)
 		defer simTaskEnd()
@@ -186,14 +186,14 @@ func (eng *RedisEmu) exitKeyMonitor() {
 			eng.RequestTermination()
 			break
 		}
-	}()
+	})
 }
 
 func (eng *RedisEmu) periodicSave() {
 	// make a periodic save that will also ensure save upon termination
 	if eng.dss.basePath != "" {
 		eng.wg.Add(1)
-		go func() {
+		simGo(func() {
 			defer eng.wg.Done()
 			simTaskBegin("saver", 0)
 			defer simTaskEnd()
@@ -236,7 +236,7 @@ func (eng *RedisEmu) periodicSave() {
 				simYield("saver.woke")
 				eng.dss.save(eng.l)
 			}
-		}()
+		})
 	}
 }
 
@@ -288,7 +288,7 @@ func (eng *RedisEmu) startServer() {
 	}
 
 	eng.wg.Add(1)
-	go func() {
+	simGo(func() {
 		defer eng.wg.Done()
 		simTaskBegin("accept", 0)
 		defer simTaskEnd()
@@ -307,7 +307,7 @@ func (eng *RedisEmu) startServer() {
 			eng.l.Infof("client connected: %s", connection.RemoteAddr().String())
 			eng.trackConn(connection, dispatcher)
 		}
-	}()
+	})
 }
 
 func (eng *RedisEmu) WaitForTermination() {
